@@ -173,6 +173,32 @@ PROPS["C15"] = {
     "assumptions": [],
 }
 
+PROPS["C02"] = {
+    "pkg": "p02",
+    "needs_evy": True,
+    "level": "exploration",
+    "level_text": "Three generated domains per run: (1) well-typed model programs with every statement form, risky indices, type assertions, "
+                  "tests, shadowing, whose output, typeof of every global and panic class are predicted by the reference interpreter; "
+                  "(2) token-level mutants of repository programs that the parser still accepts (measured acceptance ~19%), run with fuel: "
+                  "the run must end by completion, a documented panic, exit, failed test or stop - never an internal error, a Go panic "
+                  "or an unclassified error; (3) every built-in (60 signatures) with arguments from boundary classes (NaN, +-Inf, -0, "
+                  "2^31, 1e300, empty/non-ASCII/format-verb strings, empty and nested composites, any-wrapped values): allowed outcome and "
+                  "typeof of the result equal to the declared return type.",
+    "level_note": "Go panics are observed with recover; two host crashes that recover cannot survive (Go stack overflow on cyclic values and "
+                  "on unbounded recursion) are open findings whose reproducers run through the real evy binary in a subprocess; the "
+                  "in-process search avoids them by construction (fuel bounds recursion depth, generators do not build cycles).",
+    "technique": "property-based testing: validity-predicate oracle over accepted mutants and boundary-class built-in calls + reference-model differential (rapid)",
+    "tests": [
+        {"name": "TestModel", "quick": {"shards": 4, "checks": 3000}, "thorough": {"shards": 6, "checks": 40000}},
+        {"name": "TestMutants", "quick": {"shards": 6, "checks": 15000}, "thorough": {"shards": 6, "checks": 300000}},
+        {"name": "TestBuiltins", "quick": {"shards": 4, "checks": 10000}, "thorough": {"shards": 4, "checks": 200000}},
+    ],
+    "rule": "cases: model programs / corpus mutants (1-3 token edits, generated input lines) / single built-in calls. Non-trivial = model "
+            "program with an any-wrap, a typed empty literal or a panicking outcome; mutant that differs from its seed and is accepted; "
+            "built-in call with at least one argument (distinct by built-in and argument class tuple). Distinct by source text resp. class tuple.",
+    "assumptions": ["fuel: 100000 yields / 20000 effects per run; runs that exhaust it count as 'stopped'"],
+}
+
 NOT_APPLICABLE = {}
 
 ENGINES = [
